@@ -113,16 +113,17 @@ Proof. exact same_brownian. Qed.
 
 (* ---------------- the n-dimensional (Levy copula) coupling ---------------- *)
 (* positive structural theorems about the faithful 2-d model Model/CouplingNd.v of __coupling_state; they hold of the current code.
-   The n-d code always uses the arithmetic tuple-middle (amid). *)
-Theorem C03_copy_rule_nd : forall mid mass2 marg xs o i1 i2 u, (i1 mod 2 = 0)%Z -> (i2 mod 2 = 0)%Z ->
-  coupling_state2 mid mass2 marg xs o i1 i2 u
-  = Some (nthq xs (Z.to_nat (Z.of_nat o + i1)), nthq xs (Z.to_nat (Z.of_nat o + i2))).
+   The n-d code always uses the arithmetic tuple-middle (amid).  Two axis lists xs, ys (they may differ; one origin index):
+   the model follows the repaired code (fix-grid3), which reads an odd coordinate's neighbours on its own axis. *)
+Theorem C03_copy_rule_nd : forall mid mass2 marg xs ys o i1 i2 u, (i1 mod 2 = 0)%Z -> (i2 mod 2 = 0)%Z ->
+  coupling_state2 mid mass2 marg xs ys o i1 i2 u
+  = Some (nthq xs (Z.to_nat (Z.of_nat o + i1)), nthq ys (Z.to_nat (Z.of_nat o + i2))).
 Proof. exact copy_rule_2d. Qed.
-Theorem C03_adjacency_nd : forall mid mass2 marg xs o i1 i2 u v1 v2,
-  coupling_state2 mid mass2 marg xs o i1 i2 u = Some (v1, v2) ->
+Theorem C03_adjacency_nd : forall mid mass2 marg xs ys o i1 i2 u v1 v2,
+  coupling_state2 mid mass2 marg xs ys o i1 i2 u = Some (v1, v2) ->
   let p1 := Z.to_nat (Z.of_nat o + i1) in let p2 := Z.to_nat (Z.of_nat o + i2) in
   ((i1 mod 2 = 0)%Z -> v1 = nthq xs p1) /\ ((i1 mod 2 <> 0)%Z -> v1 = nthq xs (p1 - 1) \/ v1 = nthq xs (p1 + 1))
-  /\ ((i2 mod 2 = 0)%Z -> v2 = nthq xs p2) /\ ((i2 mod 2 <> 0)%Z -> v2 = nthq xs (p2 - 1) \/ v2 = nthq xs (p2 + 1)).
+  /\ ((i2 mod 2 = 0)%Z -> v2 = nthq ys p2) /\ ((i2 mod 2 <> 0)%Z -> v2 = nthq ys (p2 - 1) \/ v2 = nthq ys (p2 + 1)).
 Proof. exact adjacency_2d. Qed.
 
 Section NdMeasure.
@@ -145,11 +146,11 @@ Section NdMeasure.
     corner1 amid marg k xs p = Some (pl, pr) -> 0 <= pl /\ 0 <= pr /\ pl + pr == 1.
   Proof. intros k xs p pl pr. apply (corner1_is_law marg); assumption. Qed.
   (* ... and both axes odd (joint quarter masses) *)
-  Theorem C03_corner2_is_law : forall xs p1 p2 cs, incr xs -> (1 <= p1)%nat -> (p1 + 1 < length xs)%nat ->
-    (1 <= p2)%nat -> (p2 + 1 < length xs)%nat -> (cell_hi amid xs p1 < 0 \/ 0 < cell_lo amid xs p1) ->
-    corner2 amid mass2 xs p1 p2 = Some cs ->
+  Theorem C03_corner2_is_law : forall xs ys p1 p2 cs, incr xs -> incr ys -> (1 <= p1)%nat -> (p1 + 1 < length xs)%nat ->
+    (1 <= p2)%nat -> (p2 + 1 < length ys)%nat -> (cell_hi amid xs p1 < 0 \/ 0 < cell_lo amid xs p1) ->
+    corner2 amid mass2 xs ys p1 p2 = Some cs ->
     Forall (fun c => 0 <= snd c) cs /\ qsum (map (fun c => snd c) cs) == 1.
-  Proof. intros xs p1 p2 cs. apply (corner2_is_law mass2); assumption. Qed.
+  Proof. intros xs ys p1 p2 cs. apply (corner2_is_law mass2); assumption. Qed.
 End NdMeasure.
 
 (* the level machine of CouplingProcessLevyCopula: after any number n+1 of next_level calls the coarse diffusion matrix
@@ -169,14 +170,14 @@ Proof. exact frozen_nd. Qed.
    cell masses) and a grid on which sum_fine rate * P(fine -> y) differs from the coarse rate of y *)
 Theorem C03_telescoping_nd_refuted : exists (ps : list (Q * Q * Q * Q * Q)) (xs : list Q) (o j1 j2 : nat),
   admissible xs o 1 /\ Forall (fun p => 0 <= snd p) ps /\ (j1, j2) <> (o, o)
-  /\ ~ inflow2 ps (refine_axis amid xs) (2 * o) (2 * j1) (2 * j2) == q_entry2 amid (step_mass2 ps) xs xs o j1 j2.
+  /\ ~ inflow2 ps (refine_axis amid xs) (refine_axis amid xs) (2 * o) (2 * j1) (2 * j2) == q_entry2 amid (step_mass2 ps) xs xs o j1 j2.
 Proof. exact telescoping_nd_refuted. Qed.
 (* with the JOINT mass of (even-axes cell) x (odd-axes corner) the identity holds on the same instance: what a repair
    has to compute *)
 Theorem C03_telescoping_nd_joint_instance :
   let '(ps, xs, o) := nd_witness in
   forallb (fun j1 => forallb (fun j2 => (Nat.eqb j1 o && Nat.eqb j2 o) ||
-     Qeq_bool (inflow2_joint ps (refine_axis amid xs) (2 * o) (2 * j1) (2 * j2)) (q_entry2 amid (step_mass2 ps) xs xs o j1 j2))
+     Qeq_bool (inflow2_joint ps (refine_axis amid xs) (refine_axis amid xs) (2 * o) (2 * j1) (2 * j2)) (q_entry2 amid (step_mass2 ps) xs xs o j1 j2))
      (seq 0 (length xs))) (seq 0 (length xs)) = true.
 Proof. exact telescoping_nd_joint_instance. Qed.
 
